@@ -67,6 +67,8 @@ class VM:
         self.max_effects = max_effects
         self.detect_divergence = detect_divergence
         self.soft = soft
+        self.path = None  # set to a list to record the executed text line numbers (lock-step comparisons)
+        self.path_limit = 3000
         self.r = [0.0] * 18
         self.stack = [0.0] * self.STACK
         self.sh = 0
@@ -269,6 +271,8 @@ class VM:
                 if d is None:
                     npc = pc + 1
                 else:
+                    if self.path is not None and len(self.path) < self.path_limit:
+                        self.path.append(pc)
                     h = d[0]
                     if h == "bad":
                         raise Unmodelled(f"not loadable: {d[1]}")
